@@ -176,6 +176,7 @@ CHECKS["C05"] = {
         {"pkg": COMMON, "run": "^TestVerif_C05_Cuts$", "timeout": {"quick": 600}},
         {"pkg": COMMON, "run": "^TestVerif_C05_Sampled$", "checks": {"quick": 1500, "thorough": 200000}, "shards": {"thorough": 16}, "timeout": {"quick": 600}},
         {"pkg": COMMON, "run": "^TestVerif_C05_Oversize$", "checks": {"quick": 300, "thorough": 20000}, "shards": {"thorough": 4}},
+        {"pkg": COMMON, "run": "^$", "tiers": ["thorough"], "fuzz": {"target": "^FuzzVerifTLSConnStream$", "seconds": {"quick": 0, "thorough": 120}}},
     ],
 }
 
